@@ -29,6 +29,7 @@ type VPipe struct {
 	Rendezvous bool  // io.Pipe-like: Write returns only when everything was consumed
 	Writes     int   // completed Write calls
 	FailWrite  int   // the n-th Write call and all later ones fail (1-based; 0 = never)
+	EndErr     error // what the reader gets once the writer has closed and everything was read (nil = io.EOF)
 	FailOnce   int   // the n-th Write call fails, later ones work again (a transient failure; 0 = never)
 	SinkClosed bool  // writes after the writer was closed are accepted and dropped (a WriteCloser whose Close does not stop it)
 	FailErr    error // error of failing writes (default: a plain injected error; io.EOF models a closed ssh channel)
@@ -57,6 +58,9 @@ func (p *VPipe) Read(b []byte) (int, error) {
 		return 0, io.EOF
 	}
 	if len(p.buf) == 0 {
+		if p.EndErr != nil {
+			return 0, p.EndErr
+		}
 		return 0, io.EOF
 	}
 	if len(b) == 0 {
